@@ -40,7 +40,8 @@ def _c01_runs(tier):
     rs.append(Run(C(), "harness/p_c01.c", ["--mode=djb"], group="host-djb"))
     rs.append(Run(C(sse2=0, **MIN), "harness/p_c01.c", ["--mode=djb"], group="min-djb"))
     for mode in ("grid", "split", "big"):
-        rs.append(_w(Run(C(), "harness/p_c01.c", ["--mode=" + mode], group="host-" + mode), 8 if (mode == "grid" and tier == "thorough") else 1))
+        if mode != "big":  # the block / cutoff thresholds of the host's cache sizes are beyond the bounded sizes: the run would be empty
+            rs.append(_w(Run(C(), "harness/p_c01.c", ["--mode=" + mode], group="host-" + mode), 8 if (mode == "grid" and tier == "thorough") else 1))
         rs.append(_w(Run(C(sse2=0, **MIN), "harness/p_c01.c", ["--mode=" + mode], group="min-" + mode), 8 if (mode == "grid" and tier == "thorough") else 1))
     rs.append(_omp_run("C01", 0x2f, tier))
     return rs
